@@ -50,4 +50,7 @@ pub enum DataVerifierError {
         larger_cids: Vec<Rc<CidRef>>,
         smaller_cids: Vec<Rc<CidRef>>,
     },
+
+    #[error("the trace refers to a CID that is absent from the CID stores: {0:?}")]
+    CidNotFound(String),
 }
